@@ -215,6 +215,10 @@ func Performance(dpv *journal.Performance) float64 {
 	if v0 == v1 && inflow == 0 && outflow == 0 {
 		return 1
 	}
+	if v0+inflow == 0 && v1-outflow == 0 {
+		// only flows on an empty (or exactly settled) portfolio: nothing was gained or lost
+		return 1
+	}
 	return (v1 - outflow) / (v0 + inflow)
 }
 
